@@ -1,0 +1,80 @@
+//go:build verif
+
+// Contracts for the node grammar (C05).  Comments only; see contracts_verif.go
+// for the conventions.
+
+package commonmark
+
+// ---------------------------------------------------------------------------
+// Accessors agree with the shape.
+// ---------------------------------------------------------------------------
+
+//@ func (*Block).HeadingLevel
+//@   ensures[heading] (!isnil(b) && (b.kind == ATXHeadingKind || b.kind == SetextHeadingKind)) ==> result == b.n
+//@   ensures[elsewhere] (isnil(b) || (b.kind != ATXHeadingKind && b.kind != SetextHeadingKind)) ==> result == 0
+//@   serves C05, C04
+
+//@ func (*Block).IsOrderedList
+//@   ensures[delim] result <==> (!isnil(b) && (b.char == '.' || b.char == ')'))
+//@   serves C05, C04
+
+//@ func (*Block).IsTightList
+//@   ensures[tight] result <==> (!isnil(b) && (b.kind == ListKind || b.kind == ListItemKind) && !b.listLoose)
+//@   serves C05, C04
+
+// ---------------------------------------------------------------------------
+// No unparsed node remains: hasUnparsed finds an unparsed child wherever it is
+// (so Rewrite re-parses every block that has one), and the tokeniser never
+// adds an unparsed or kind-less node to the tree it builds (call-site
+// obligation on every addToRoot of parse, in contracts_inline_verif.go).
+// ---------------------------------------------------------------------------
+
+//@ func hasUnparsed
+//@   ensures[any] result <==> (!isnil(b) && (exists k in [0, len(b.inlineChildren)): !isnil(b.inlineChildren[k]) && b.inlineChildren[k].kind == UnparsedKind))
+//@   loop 0: invariant[none] !isnil(b) && (forall k in [0, _i): isnil(b.inlineChildren[k]) || b.inlineChildren[k].kind != UnparsedKind)
+//@   serves C05, C04
+
+// ---------------------------------------------------------------------------
+// Block starts (the function literals of blockStarts, keyed by the recogniser
+// they call).  Heading levels handed to the tree are 1-6 (ATX) and 1-2
+// (setext); a list item is opened together with its list marker, which is its
+// first child; list and item get the marker's delimiter.  The line cursor's
+// methods are abstracted.
+// ---------------------------------------------------------------------------
+
+//@ func closure(parseATXHeading)
+//@   requires !isnil(p)
+//@   modifies everything
+//@   havoccall (*lineParser).Indent, (*lineParser).BytesAfterIndent, (*lineParser).ConsumeIndent, (*lineParser).OpenHeadingBlock, (*lineParser).Advance, (*lineParser).CollectInline, (*lineParser).ConsumeLine, (*lineParser).EndBlock
+//@   callsite (*lineParser).OpenHeadingBlock: requires[level] $1 == ATXHeadingKind && 1 <= $2 && $2 <= 6
+//@   unclaimed pre@parseATXHeading the line handed to the recogniser has at most one line ending, at its end (established by readline; the cursor code between is abstracted)
+//@   serves C05
+
+//@ func closure(parseSetextHeadingUnderline)
+//@   requires !isnil(p)
+//@   modifies everything
+//@   havoccall (*lineParser).ContainerKind, (*lineParser).Indent, (*lineParser).BytesAfterIndent, (*lineParser).MorphSetext, (*lineParser).ConsumeLine, (*lineParser).EndBlock
+//@   callsite (*lineParser).MorphSetext: requires[level] $1 == 1 || $1 == 2
+//@   unclaimed pre@parseSetextHeadingUnderline the line handed to the recogniser has at most one line ending, at its end (established by readline; the cursor code between is abstracted)
+//@   serves C05
+
+//@ func closure(parseListMarker)
+//@   requires !isnil(p)
+//@   modifies everything
+//@   havoccall (*lineParser).Indent, (*lineParser).BytesAfterIndent, (*lineParser).ContainerKind, (*lineParser).ContainerListDelim, (*lineParser).ConsumeIndent, (*lineParser).OpenListBlock, (*lineParser).OpenBlock, (*lineParser).Advance, (*lineParser).EndBlock, (*lineParser).IsRestBlank, (*lineParser).SetContainerIndent, (*lineParser).ConsumeLine
+//@   ghost items = 0
+//@   ghost markers = 0
+//@   ghost pending = 0
+//@   callsite (*lineParser).OpenListBlock: requires[kinds] $1 == ListKind || $1 == ListItemKind
+//@   callsite (*lineParser).OpenListBlock: requires[delim] $2 == m.delim && (m.delim == '-' || m.delim == '+' || m.delim == '*' || m.delim == '.' || m.delim == ')')
+//@   callsite (*lineParser).OpenListBlock: requires[nomarker] pending == 0
+//@   callsite (*lineParser).OpenListBlock: ghost pending = ($1 == ListItemKind) ? 1 : 0
+//@   callsite (*lineParser).OpenListBlock: ghost items = ($1 == ListItemKind) ? items + 1 : items
+//@   callsite (*lineParser).OpenBlock: requires[marker] $1 == ListMarkerKind && pending == 1
+//@   callsite (*lineParser).OpenBlock: ghost markers = markers + 1
+//@   callsite (*lineParser).OpenBlock: ghost pending = 0
+//@   callsite (*lineParser).Advance: requires[consume] pending == 0 && markers == 1 && $1 == m.end
+//@   ensures[first-child] items == markers && pending == 0 && items <= 1
+//@   nosafety index the rest of the line after the marker exists (parseListMarker's range postcondition; the cursor code between is abstracted)
+//@   nosafety slice the rest of the line after the marker exists (parseListMarker's range postcondition; the cursor code between is abstracted)
+//@   serves C05
